@@ -96,3 +96,12 @@ Theorem C10_constructed_channel_opens : forall F c rc,
   open_channel (w_fs (fst (init F (mkVar Staged c) rc W0))) = true.
 Proof. exact constructed_channel_opens. Qed.
 Print Assumptions C10_constructed_channel_opens.
+
+(* ---- T17: the sources this property rests on keep no state outside the objects the model has (no static locals
+   or mutable globals in C, no class-level / module-level containers, `global` rebinding or cache decorators in
+   Python): the list of such sites, regenerated from the sources on every run, is empty *)
+From Coq Require Import String List.
+From DRF Require Import Gen.StateSites Proofs.StateSitesProofs.
+Theorem C10_no_state_outside_the_modelled_objects : state_sites_c_library = @nil string /\ state_sites_extension = @nil string /\ state_sites_rf_python = @nil string.
+Proof. repeat split; first [exact no_state_outside_objects_c_library | exact no_state_outside_objects_extension | exact no_state_outside_objects_rf_python]. Qed.
+Print Assumptions C10_no_state_outside_the_modelled_objects.
